@@ -9,7 +9,7 @@ the justified dictionary spellings; which words are in the memo (C05's lemma).""
 import itertools
 
 from engine.mir import E, apath, strip_refs, is_const, const_val, callee_name, self_path
-from engine.analyses import (peel_conv, guards_of, contains_call, enumerate_paths, PathLimit, bool_of)
+from engine.analyses import (peel_conv, guards_of, contains_call, enumerate_paths, PathLimit, bool_of, known_switch_value)
 from engine.report import site_of
 from engine import tables
 from . import common, builders, classes, c17, phonetic
@@ -88,6 +88,7 @@ def join_region(prog, b, cls_fns):
         conds = []
         effects = []
         env = {}
+        feasible = True
         for (x, vals) in p:
             if x == ebb:
                 break
@@ -96,6 +97,13 @@ def join_region(prog, b, cls_fns):
             if t["k"] == "switch":
                 d = strip_refs(b.expr_operand(t["discr"], 0, env))
                 allv = tuple(v for v, _ in t["targets"])
+                kv = known_switch_value(d)
+                if kv is not None:
+                    # decided on this path (e.g. the variant of a junction value built a few blocks earlier): no condition, one edge
+                    if (vals == "otherwise") == (kv in allv) or (vals != "otherwise" and kv not in vals):
+                        feasible = False
+                        break
+                    continue
                 conds.append((d, vals, allv, t["discr_ty"]))
             elif t["k"] == "call":
                 n = callee_name(t)
@@ -110,7 +118,8 @@ def join_region(prog, b, cls_fns):
                         effects.append(("push_str", const_val(v) if is_const(v, "str") else repr(v)))
                     elif not any(n.endswith(s) for s in ("::len", "::is_empty", "::as_str", "::deref", "::capacity")):
                         effects.append(("other", n))
-        out.append((conds, effects))
+        if feasible:
+            out.append((conds, effects))
     return {"start": sbb, "end": ebb, "paths": out, "dst": edst, "suffix": esrc}, None
 
 
@@ -230,6 +239,22 @@ def affine(e, is_word, depth=0):
     return None
 
 
+def driven_ranges(b):
+    """[(Range aggregate E, bb)] of the `a..b` ranges a loop of this body runs over: `for i in a..b` (into_iter on the range) or the range
+    driven directly by next() (`(a..b).find_map(..)` written out as its loop)."""
+    out = []
+    for (bb_, t_) in b.calls():
+        n = callee_name(t_)
+        if not t_["args"] or t_["args"][0]["k"] == "const":
+            continue
+        ty = t_["args"][0]["place"]["ty"]
+        if (n.endswith("IntoIterator>::into_iter") and "ops::Range<usize>" in ty) or (n.endswith("Iterator>::next") and ty == "&mut std::ops::Range<usize>"):
+            ra = strip_refs(b.expr_operand(t_["args"][0]))
+            if ra.k == "agg" and ra.a[0].endswith("ops::Range::Range"):
+                out.append((ra, bb_))
+    return out
+
+
 def slice_bounds(s, is_word, depth=0):
     """(lo, hi) affine forms if s is a slice of the word."""
     s = strip_refs(s)
@@ -273,7 +298,8 @@ def run(ctx):
     acc = c17.accessors(prog)
     cls = classes.class_fns(prog)
     reach = prog.reach([R["get_suggestion"], R["backspace"]], foreign_trait_impls=False)
-    sib = sorted(k for k in reach if prog.fns[k].get("kind") != "Closure" and any(callee_name(t).endswith("Data::find_suffix") for (bb, t) in prog.body(k).calls()))
+    # (a look-up written inside a closure — `(1..len).find_map(|i| …)` — belongs to the function the closure is written in)
+    sib = sorted({prog.owner_fn(k) for k in reach if any(callee_name(t).endswith("Data::find_suffix") for (bb, t) in prog.body(k).calls())})
     r1 = chk.rule("C08.R1", "joining rules = the three stated rules, identical in both sibling implementations",
                   "joining inserts য় between a final vowel and an initial vowel sign, turns a final ৎ into ত and a final ং into ঙ, and otherwise concatenates")
     r2 = chk.rule("C08.R2", "split points partition the word, each split tried exactly once, for every word longer than two characters",
@@ -351,11 +377,8 @@ def run(ctx):
             return False
         # loop range
         rng = None
-        for (bb_, t_) in b.calls():
-            if callee_name(t_).endswith("IntoIterator>::into_iter") and "ops::Range<usize>" in t_["args"][0]["place"]["ty"]:
-                ra = strip_refs(b.expr_operand(t_["args"][0]))
-                if ra.k == "agg" and ra.a[0].endswith("ops::Range::Range"):
-                    rng = (affine(ra.a[1][0], is_word), affine(ra.a[1][1], is_word), bb_)
+        for (ra, bb_) in driven_ranges(b):
+            rng = (affine(ra.a[1][0], is_word), affine(ra.a[1][1], is_word), bb_)
         if not rng or rng[0] is None or rng[1] is None:
             r2.undecidable("range@%s" % short, "split loop is not `for i in <affine>..<affine>` over the word length", common.fn_line(prog, fk))
             continue
